@@ -30,6 +30,8 @@ DECIDED = [
     "ALIAS-3 the values getter returns a fresh list with inner lists copied; value mutators store converted values only",
     "RET-1 (C05) the dtype converters build their results: the value lists the copy gets from the values setter share no inner list with the caller's input",
     "FWD-2 TemplateHandler.clone_section forwards children and keep_id",
+    'EQ-1 BaseObject.__eq__ singles out no attribute name but id / oid',
+    'LEAF-1 also: the start node of export_leaf is told from its ancestors by the object itself, never by agreement of an attribute value',
 ]
 NOT_DECIDED = ["clone() == original (deep, value level equality)", "independence of foreign objects stored as attribute values",
                "_merged is copied by reference (points at the original's merge target; not a container)"]
